@@ -2,6 +2,14 @@
 """Generates MANIFEST.json. Edit BUILT / texts here, run, commit."""
 import json
 BUILT = {
+ "C03": dict(level="exploration", technique="bounded-exhaustive enumeration of sibling chains x separators x placements against a reference chain evaluator; value x reach x consumer truthiness table",
+   text="Every sibling list of length <=5 (thorough: <=6) over {plain, v-if T/F, v-else-if T/F, v-else} x 4 separators x 6 placements, against a 40-line reference chain evaluator; 46 Go values x 3 ways of reaching them x 6 truthiness consumers against the documented table and against each other.",
+   note="Trusts the reference evaluator in checks/c03.go. Orphan v-else/v-else-if and members after v-else are unconstrained apart from the plain siblings; typed nil pointers, NaN and the string \"false\" (pinned falsy) are only checked for uniformity.",
+   ref="DESIGN.md §3 C03"),
+ "C04": dict(level="exploration", technique="bounded-exhaustive product of collection kinds, lengths, loop forms, shadowing names, v-else, element kinds, root data kinds, print positions and entry points against a reference interpreter plus a before/after differential oracle",
+   text="13 collection kinds x lengths 0..2 (thorough 0..3) x 2 paths x 2 loop forms x 5 variable names (fresh, shadowing a key, a struct field by name and by tag) x v-else placement x 4 element kinds x 3 root kinds x 2 print positions x 2 entry points, plus nested loops; instance list, for-else and scope restoration are compared with a reference.",
+   note="Trusts the reference in checks/c04.go. Map iteration is left to C10; JSON-tag access inside expressions and Go-field-name visibility are left to C08/C13/C17 (only the before==after oracle applies to those names).",
+   ref="DESIGN.md §3 C04"),
  "C01": dict(level="exploration", technique="bounded-exhaustive enumeration of hostile token strings x sink x neighbourhood x construct with an HTML5 re-parse oracle (small-scope model checking of a sequential API)",
    text="Every token string of length <=3 (thorough: 4 in the plain neighbourhood) over a 16-token HTML/mustache-hostile alphabet plus 7 non-string values, in 5 sinks x 6 static neighbourhoods x 12 enclosing constructs; the output is re-parsed with an HTML5 parser and must have the element/attribute-name skeleton of the harmless run, and a canary variable must never be printed. Exhaustive within the bound; the escaping logic decides per character class, so short strings over one token per class reach every branch.",
    note="Trusts golang.org/x/net/html as the HTML5 parser and the context generator in checks/c01.go. Says nothing about strings longer than the bound or characters outside the alphabet. Falsy non-string values in bound sinks are skipped (attribute legitimately omitted).",
